@@ -232,7 +232,10 @@ pub fn render(c: &Circuit, st: &XmlStyle, r: &mut Prng) -> String {
             r.shuffle(&mut entries);
         }
         if entries.is_empty() {
-            w.line(3, "<elementAttributes/>");
+            // an element without attributes: an empty element, or none at all
+            if r.chance(1, 2) {
+                w.line(3, "<elementAttributes/>");
+            }
         } else {
             w.line(3, "<elementAttributes>");
             for e in entries {
